@@ -287,6 +287,21 @@ EXTRA3 = {
     "C20": " Rounds 6-7: a one-voter unit next to a unit scaled by 3000 (weight ratios below 1e-6)."
 }
 
+EXTRA4 = {
+    "C03": " Round 8: baseline files whose rows are not grouped by state (random row order, a fifth of all cases of the shared builder).",
+    "C05": " Round 8: lambda_ > 0 on the covariate-free model (the conic solver's median is accepted up to its accuracy, 2e-4 of the unit size, counted).",
+    "C07": " Round 8: one client for the night - no calls, calls made, a contradictory call, the calls again, calls retracted - every poll compared with a fresh client.",
+    "C08": " Round 8: statewide offices whose baseline carries a district column and whose config allows that aggregate (known finding: the (state, district) groups are taken for the contests).",
+    "C09": " Round 8: a row with one requested count missing under the drop policy (the unit is unexpected, exactly once).",
+    "C10": " Round 8: robust correction together with a partial count far above the victim's own interval.",
+    "C11": " Round 8: both polls answered by one client that earlier knew the extra units as expected units (baseline file corrected since).",
+    "C12": " Round 8: contest_correlations (overlapping pairs, projected to PSD; one group).",
+    "C13": " Round 8: levels that agree to two or three decimals (0.99 / 0.995, 0.9 / 0.901), every level also requested alone.",
+    "C17": " Round 8: the extrapolation monitor runs again (real _extrapolate_unit_margin with DataFrameGroupBy.apply behaving as in pandas 2, counted separately) and also compares with the flagged units removed altogether.",
+    "C18": " Round 8: a third of the children answer all their polls with ONE client (same feed, only save_output changes).",
+    "C20": " Round 8: half of the elections run after a bootstrap request was answered in the same process.",
+}
+
 NOT_YET = {}
 
 
@@ -308,7 +323,7 @@ def main():
             evidence_file=f"/verif/evidence/{pid}.json",
             replay_cmd_template=f"{PY} -m vlib.check {pid} --replay {{path}}",
             engine="vlib",
-            level_claimed=dict(category=c["category"], text=c["text"] + EXTRA.get(pid, "") + EXTRA2.get(pid, "") + EXTRA3.get(pid, ""), design_ref=c["ref"] + " and 9.4"),
+            level_claimed=dict(category=c["category"], text=c["text"] + EXTRA.get(pid, "") + EXTRA2.get(pid, "") + EXTRA3.get(pid, "") + EXTRA4.get(pid, ""), design_ref=c["ref"] + " and 9.4"),
             level_note=c["note"],
             technique=c["technique"],
         ))
